@@ -293,9 +293,106 @@ fn three_state_leaves(seed: u64, count: usize) -> Vec<Expr> {
         .collect()
 }
 
+/// Language and hint soundness of one automaton, by brute force: every string up to length 4 over
+/// {a, b, 0xff} with every continuation up to length 3. Only evidence found within that depth counts,
+/// so the judgement is sound. Returns the accepted strings.
+fn brute<A: Automaton>(a: &A, what: &str) -> Result<Vec<Vec<u8>>, crate::engine::Fail> {
+    const SIGMA: [u8; 3] = [b'a', b'b', 0xff];
+    let mut words: Vec<Vec<u8>> = vec![vec![]];
+    let mut layer: Vec<Vec<u8>> = vec![vec![]];
+    for _ in 0..4 {
+        let mut next = vec![];
+        for w in &layer {
+            for &c in &SIGMA {
+                let mut x = w.clone();
+                x.push(c);
+                next.push(x);
+            }
+        }
+        words.extend(next.iter().cloned());
+        layer = next;
+    }
+    let conts: Vec<&Vec<u8>> = words.iter().filter(|w| w.len() <= 3).collect();
+    let run = |w: &[u8]| {
+        let mut st = a.start();
+        for &b in w {
+            st = a.accept(&st, b);
+        }
+        st
+    };
+    let mut accepted = vec![];
+    for w in &words {
+        let st = run(w);
+        if a.is_match(&st) {
+            accepted.push(w.clone());
+        }
+        let (can, always) = (a.can_match(&st), a.will_always_match(&st));
+        if can && !always {
+            continue;
+        }
+        for c in &conts {
+            let mut wc = w.clone();
+            wc.extend_from_slice(c);
+            let m = a.is_match(&run(&wc));
+            if !can && m {
+                return Err(crate::engine::Fail::new("can-match-unsound", format!("{}: after input {} can_match=false but the continuation {} matches", what, show(w), show(c))));
+            }
+            if always && !m {
+                return Err(crate::engine::Fail::new("will-always-match-unsound", format!("{}: after input {} will_always_match=true but the continuation {} does not match", what, show(w), show(c))));
+            }
+        }
+    }
+    Ok(accepted)
+}
+
+/// Every search(&aut) goes through the blanket impl for references: a borrowed automaton, alone and
+/// under each combinator, must have the language of the owned one and sound hints of its own.
+fn check_borrowed<A: Automaton + Clone>(leaf: &A, name: &str, rec: &mut Rec) -> CheckResult {
+    rec.eval();
+    let base = brute(leaf, name)?;
+    let r = brute(&leaf, &format!("&{}", name))?;
+    vensure!(r == base, "borrowed-language", "&{} accepts a different set of strings (up to length 4 over a, b, 0xff) than {}", name, name);
+    let owned = brute(&leaf.clone().complement(), &format!("{}.complement()", name))?;
+    let borrowed = brute(&(&leaf).complement(), &format!("(&{}).complement()", name))?;
+    vensure!(owned == borrowed, "borrowed-language", "(&{}).complement() accepts a different set of strings than {}.complement()", name, name);
+    let owned = brute(&leaf.clone().starts_with(), &format!("{}.starts_with()", name))?;
+    let borrowed = brute(&(&leaf).starts_with(), &format!("(&{}).starts_with()", name))?;
+    vensure!(owned == borrowed, "borrowed-language", "(&{}).starts_with() accepts a different set of strings than {}.starts_with()", name, name);
+    let other = fst::automaton::Str::new("ab");
+    let owned = brute(&leaf.clone().union(other.clone()), &format!("{}.union(Str(ab))", name))?;
+    let borrowed = brute(&(&leaf).union(&other), &format!("(&{}).union(&Str(ab))", name))?;
+    vensure!(owned == borrowed, "borrowed-language", "(&{}).union(&Str(ab)) accepts a different set of strings than the owned composition", name);
+    let owned = brute(&leaf.clone().intersection(other.clone().complement()), &format!("{}.intersection(Str(ab).complement())", name))?;
+    let oc = (&other).complement();
+    let borrowed = brute(&(&leaf).intersection(&oc), &format!("(&{}).intersection(&(&Str(ab)).complement())", name))?;
+    vensure!(owned == borrowed, "borrowed-language", "(&{}).intersection(&..) accepts a different set of strings than the owned composition", name);
+    if !rec.muted {
+        rec.class("borrowed_components");
+        rec.nontrivial(H::new().b(name.as_bytes()).u(0xb0).get());
+    }
+    Ok(())
+}
+
+fn check_borrowed_named(n: &String, rec: &mut Rec) -> CheckResult {
+    // names are Str("..") / Subsequence("..") with a debug-quoted pattern, or AlwaysMatch
+    let pat = |n: &str| -> String { n.split_once('(').map(|x| x.1.trim_end_matches(')')).map(|q| q.trim_matches('"').replace("\\u{ff}", "\u{ff}")).unwrap_or_default() };
+    if n.starts_with("Str(") {
+        let p = pat(n);
+        check_borrowed(&fst::automaton::Str::new(&p), n, rec)
+    } else if n.starts_with("Subsequence(") {
+        let p = pat(n);
+        check_borrowed(&fst::automaton::Subsequence::new(&p), n, rec)
+    } else {
+        check_borrowed(&fst::automaton::AlwaysMatch, n, rec)
+    }
+}
+
 pub fn run(e: &Engine) {
     e.set_rule("cases are automaton expression trees over leaves {Str, Subsequence (patterns over a,b,e-acute, incl. empty), AlwaysMatch, component DFAs with <= 3 states over 2 byte classes with every sound assignment of both hints} and operators {starts_with, union, intersection, complement}, built with the crate's own combinators through a type-erasing adapter; oracle = an explicit reference state machine (products, latch, complement) explored completely over one representative byte per joint behaviour class, cross-checked against a denotational definition; checked at every prefix of the shortest witness of every reference state and of every string up to length 2..5 over the representatives: is_match == reference acceptance, can_match=false only if no accepting state is reachable, will_always_match=true only if every reachable state accepts; evaluations counts (expression, prefix) checks; non-trivial = depth >= 2, containing complement or starts_with, over a leaf with a non-trivial hint, with a pruning hint actually observed; distinct by expression");
     e.assume("component automata generated by the harness have sound hints by construction (checked against exact reachability)");
+    // borrowed automata (the blanket impl for references), alone and under each combinator
+    let names: Vec<String> = ["", "a", "ab", "ba", "aab", "\u{ff}"].iter().map(|p| format!("Str({:?})", p)).chain(["", "a", "ab", "aa", "bab"].iter().map(|p| format!("Subsequence({:?})", p))).chain(["AlwaysMatch".to_string()]).collect();
+    e.run_list("borrowed-automata-under-each-combinator", &names, |n| json!({"borrowed": n}), |n, rec| check_borrowed_named(n, rec));
     let lv = leaves();
     let nl = lv.len() as u64;
     e.extra("enumerated_leaves", json!(nl));
@@ -386,12 +483,17 @@ pub fn run(e: &Engine) {
         // hints may legitimately be less precise
         e.expect_class(cls, 1);
     }
-    for cls in ["depth_0", "depth_1", "depth_2", "depth_3", "depth_4", "pattern_longer_than_255_bytes"] {
+    for cls in ["depth_0", "depth_1", "depth_2", "depth_3", "depth_4", "pattern_longer_than_255_bytes", "borrowed_components"] {
         e.require_class(cls, 1);
     }
 }
 
 pub fn replay(_sub: &str, case: &Value) -> Option<CheckResult> {
+    if let Some(n) = case.get("borrowed").and_then(|x| x.as_str()) {
+        let mut rec = Rec::new(0);
+        let n = n.to_string();
+        return Some(crate::engine::guarded(|| check_borrowed_named(&n, &mut rec)));
+    }
     let mut rec = Rec::new(0);
     Some(crate::engine::guarded(|| check(&Expr::from_json(case).ok_or_else(bad)?, &mut rec)))
 }
